@@ -1680,6 +1680,74 @@ def rule_semtok_pairing(prog):
             "the entry of a *used* type counts from its own declaration, the index from the declaration that is walked: where the two happen "
             "to coincide (a two-line doc comment in front of `type vector = ..`, `type alias = vector;`) the use of the type is marked as a "
             "declaration (%d comparisons looked at)" % n_decl, ("declframe",))
+    # the base is one running value for the whole document: a collector that advances a base it received *by value* advances a copy.
+    # That is only right where the caller never looks at its base again (the last stretch of the document); called for one declaration
+    # among others (inside the per-declaration closure / loop, or with the base used again further down) the advance is lost
+    lost = None
+    n_byval = 0
+    for b in mod_bodies:
+        byval = [p_ for p_ in b["params"] if p_.get("k") == "Binding" and c.tstr(p_["bt"]).replace(" ", "") == "lsp_types::Position"]
+        if not byval or "sig_out" not in b or "Vec<" not in c.tstr(b["sig_out"]):
+            continue
+        for p_ in byval:
+            ids_ = {p_["id"]}
+            for l_ in hir.nodes(b["body"], "Let"):    # (`let mut base = base;`)
+                if l_["pat"].get("k") == "Binding" and (hir.path_local(l_.get("init") or {}) or {}).get("id") in ids_:
+                    ids_.add(l_["pat"]["id"])
+            if not any((hir.path_local(hir.strip(a_["l"])) or {}).get("id") in ids_ for a_ in hir.nodes(b["body"], "Assign")):
+                continue
+            pi_ = b["params"].index(p_)
+            for y in mod_bodies:
+                for call, cps in hir.walk(y["body"]):
+                    if call.get("k") != "Call" or hir.callee(call) != b["p"] or pi_ >= len(call["args"]):
+                        continue
+                    n_byval += 1
+                    arg_ = hir.path_local(hir.strip(call["args"][pi_]))
+                    if not arg_:
+                        continue
+                    repeated = any(q_.get("k") in ("Closure", "ForLoop", "While", "Loop") for q_ in cps)
+                    used_later = False
+                    chain_ = list(cps) + [call]
+                    for i_, q_ in enumerate(chain_[:-1]):
+                        if q_.get("k") != "Block":
+                            continue
+                        kids_ = list(q_["stmts"]) + ([q_["expr"]] if q_.get("expr") else [])
+                        after_ = False
+                        for k_ in kids_:
+                            if after_ and any((hir.path_local(z_) or {}).get("id") == arg_["id"] for z_ in hir.nodes(k_)):
+                                used_later = True
+                            if k_ is chain_[i_ + 1] or any(z_ is call for z_ in hir.nodes(k_)):
+                                after_ = True
+                    if repeated or used_later:
+                        lost = lost or (y, call, b)
+    # ... and by reference means: a reference to the running base itself, not to a copy made for this one declaration
+    for b in mod_bodies:
+        for pi_, p_ in enumerate(b["params"]):
+            if p_.get("k") != "Binding" or c.tstr(p_["bt"]).replace(" ", "") != "&mutlsp_types::Position":
+                continue
+            if "sig_out" not in b or "Vec<" not in c.tstr(b["sig_out"]):
+                continue
+            for y in mod_bodies:
+                for call, cps in hir.walk(y["body"]):
+                    if call.get("k") != "Call" or hir.callee(call) != b["p"] or pi_ >= len(call["args"]):
+                        continue
+                    a_ = hir.strip(call["args"][pi_])
+                    if a_.get("k") != "AddrOf":
+                        continue
+                    n_byval += 1
+                    loc_ = hir.path_local(hir.strip(a_["e"]))
+                    scopes_ = [q_ for q_ in cps if q_.get("k") in ("Closure", "ForLoop", "While", "Loop")]
+                    if not loc_ or not scopes_:
+                        continue
+                    inner_ = scopes_[-1]
+                    for l_ in hir.nodes(inner_["body"], "Let"):
+                        if any(bd["id"] == loc_["id"] for bd in hir.pat_bindings(l_["pat"])) and l_.get("init") is not None and \
+                                c.tstr(hir.strip(l_["init"])["t"]).replace(" ", "") == "lsp_types::Position":
+                            lost = lost or (y, call, b)
+    out.add("semantic_tokens", "a collector that advances the delta base receives it by reference wherever the caller goes on using it", lost is None,
+            c.loc(lost[1]["sp"]) if lost else "", ("%s hands its base to %s by value; " % (lost[0]["d"], lost[2]["d"]) if lost else "") +
+            "the collector advances a copy: the tokens behind this region (a top-level error region with a keyword, number or comment in it) "
+            "are encoded relative to a stale position and land on wrong lines / columns (%d by-value call sites looked at)" % n_byval, ("byvalue",))
     if n_units < 1:
         out.missing("assignments to the delta base (a Position) in per-token code of features::semantic_tokens (found %d)" % n_units)
     # every delta is computed against the current base: the Position handed to a token constructor (a function of the module that
@@ -1755,6 +1823,51 @@ def rule_fmt_pure(prog):
                 bad.append((b, n))
     out.add("formatting::fmt", "output does not depend on byte positions of the input layout", not bad,
             c.loc(bad[0][1]["sp"]) if bad else "", "the printer reads Token.range: two layouts of the same token sequence can then format differently")
+
+    # the indentation unit is put in front of *lines*: the function that yields the unit (a method of the options that reads
+    # insertSpaces / tabSize) is used only where rendered text is walked line by line.  Put in front of an item (a parameter, a statement)
+    # it indents the first line of that item only - a parameter with a comment hoisted in front of it is two lines
+    unit_fns = [b for b in fmt_bodies if b["k"] in ("fn", "assoc_fn") and "sig_out" in b and c.tstr(b["sig_out"]).endswith("String") and
+                len(b["params"]) == 1 and b["params"][0].get("k") == "Binding" and
+                ((hir.adt_path(c, b["params"][0]["bt"]) or "").startswith("lsp4spl::features::formatting") or
+                 "FormattingOptions" in c.tstr(b["params"][0]["bt"])) and
+                any(f_.get("k") == "Field" for f_ in hir.nodes(b["body"]))]
+    LINEWISE = ("lines", "split", "split_inclusive", "split_terminator")
+
+    def per_line(y, node, parents):
+        """is node inside code of y that runs once per line of some text?"""
+        for q_ in parents:
+            if q_.get("k") == "Closure" or q_.get("k") in ("ForLoop", "While", "Loop"):
+                if any(m_.get("k") == "MethodCall" and m_["m"] in LINEWISE for m_ in hir.nodes(y["body"])):
+                    return True
+        return False
+
+    if unit_fns:
+        unit_ps = set(u["p"] for u in unit_fns)
+        bad_unit = None
+        n_unit = 0
+        for y in fmt_bodies:
+            if y["k"] == "closure" or y["p"] in unit_ps:
+                continue
+            for x, ps in hir.walk(y["body"]):
+                if x.get("k") not in ("Call", "MethodCall") or (hir.callee(x) or "") not in unit_ps:
+                    continue
+                n_unit += 1
+                if per_line(y, x, ps):
+                    continue
+                # a helper that indents one line: decided where it is called
+                sites_ = [(z, cl_, cps_) for z in fmt_bodies if z["k"] != "closure" for cl_, cps_ in hir.walk(z["body"])
+                          if cl_.get("k") in ("Call", "MethodCall") and hir.callee(cl_) == y["p"]]
+                if sites_ and all(per_line(z, cl_, cps_) for z, cl_, cps_ in sites_):
+                    continue
+                bad_unit = bad_unit or (y, x)
+        out.add("formatting::fmt", "the indentation unit is put in front of lines (only where rendered text is walked line by line)", bad_unit is None,
+                c.loc(bad_unit[1]["sp"]) if bad_unit else "", ("%s takes the unit outside a line-by-line walk; " % bad_unit[0]["d"] if bad_unit else "") +
+                "put in front of an item instead of each of its lines, the unit indents the item's first line only: a parameter whose comment "
+                "was hoisted in front of it is two lines, the second one lands in column 0 (%d uses of the unit)" % n_unit, ("unit",))
+    else:
+        out.add("formatting::fmt", "the indentation unit is put in front of lines (only where rendered text is walked line by line)", None, "",
+                "no function of the formatter that yields the unit from insertSpaces/tabSize was found", ("unit",))
 
     # rendered text is cut into lines at the line feeds the printer itself emitted, nowhere else: a token may contain any other character
     # (a raw carriage return inside a character literal), and splitting there breaks the token
